@@ -4,7 +4,7 @@ Line-protocol driver for the C08 replication model.
   reset
   append <hex> | append -        leader WriteLog (`-` = empty message)
   step <a|b> <fault>             one partition.replica call for that follower; fault ∈ none cli getack reset connect send recv put
-  frestart <w> | flose <w> | offline <w> | online <w> <fault> | join <w>
+  frestart <w> | flose <w> | offline <w> | online <w> <fault> | steponl <w> <fault> | join <w>
   lsnap | lrestore <k> | lrestart | gc | expire
 
 Every line answers
@@ -66,12 +66,12 @@ def showOut : Out → String
 
 def b01 (b : Bool) : String := if b then "1" else "0"
 
-def showPeer (c g : Int) (F : Log) (ch : Chan) (st : Stream) (live susp stopped born : Bool) : String :=
+def showPeer (c g : Int) (F : Log) (ch : Chan) (st : Stream) (live susp parked stopped born : Bool) : String :=
   let cs := if stopped then "- -" else s!"{showChan ch} {showStream st}"
-  s!"c={c} g={g} F={showLog F} {cs} live={b01 live} susp={b01 susp} stop={b01 stopped} born={b01 born}"
+  s!"c={c} g={g} F={showLog F} {cs} live={b01 live} susp={b01 susp} park={b01 parked} stop={b01 stopped} born={b01 born}"
 
 def showSt (s : St) : String :=
-  s!"L={showLog s.L} A: {showPeer s.cons s.gack s.F s.chan s.stream s.live s.susp s.stopped s.born} B: {showPeer s.cons2 s.gack2 s.F2 s.chan2 s.stream2 s.live2 s.susp2 s.stopped2 s.born2} imgs={s.imgs.length} gone={b01 s.gone}"
+  s!"L={showLog s.L} A: {showPeer s.cons s.gack s.F s.chan s.stream s.live s.susp s.parked s.stopped s.born} B: {showPeer s.cons2 s.gack2 s.F2 s.chan2 s.stream2 s.live2 s.susp2 s.parked2 s.stopped2 s.born2} imgs={s.imgs.length} gone={b01 s.gone}"
 
 def parseFault : String → Option Fault
   | "none" => some .none | "cli" => some .cli | "getack" => some .getack | "reset" => some .reset
@@ -91,12 +91,16 @@ def parseEv : List String → Option Ev
   | ["lrestart"] => some .lrestart
   | ["offline", w] => (parseWho w).map Ev.offline
   | ["online", w, f] => do let w ← parseWho w; let f ← parseFault f; some (.online w f)
+  | ["steponl", w, f] => do let w ← parseWho w; let f ← parseFault f; some (.steponl w f)
   | ["join", w] => (parseWho w).map Ev.join
   | ["gc"] => some .gc
   | ["expire"] => some .expire
   | _ => none
 
-def cfg : Cfg := { fixed := LinVerif.Generated.C08.aheadFixed, mfail := LinVerif.Generated.C08.mismatchSetsFailure }
+def cfg : Cfg :=
+  { fixed := LinVerif.Generated.C08.aheadFixed
+    mfail := LinVerif.Generated.C08.mismatchSetsFailure
+    wake := LinVerif.Generated.C08.wakeSendBlocking }
 
 def step (s : St) (ws : List String) : St × String :=
   match ws with
